@@ -9,7 +9,7 @@
         numbers.  This matters: the maps may point to an object that is no longer (or twice) in
         the slice, and the code then behaves differently before and after a reload.
       - NewAccount, ImportAccount (+ the "_1" rename), addAccountData (signature-scheme check,
-        duplicate-label check, first account becomes default), DeleteAccount (refuses the default
+        duplicate-label check, duplicate-address check, first account becomes default), DeleteAccount (refuses the default
         account, needs the password, WalletData.DelAccount removes the FIRST slice entry with that
         address), SetDefaultAccount, SetLabel, ChangePassword, ChangeSigScheme, the getters by
         address / label / index / default, getAccount (decrypt, then signature.GetScheme).
@@ -133,7 +133,7 @@ Section Wallet.
 
   Inductive res :=
   | ROk | RKey (k : key) | RNil
-  | EEmptyPwd | ESigScheme | EDupLabel | ENotFound | EDeleteDefault | EDecrypt | ESchemeName | ENoDefault.
+  | EEmptyPwd | ESigScheme | EDupLabel | EDupAddr | ENotFound | EDeleteDefault | EDecrypt | ESchemeName | ENoDefault.
 
   (** keypair.DecryptWithCustomScrypt: `len(pwd) == 0` is refused before anything else *)
   Definition decrypt (prm : scrypt) (x : acct) (pwd : string) : option key :=
@@ -176,6 +176,7 @@ Section Wallet.
   Definition add_account_data (w : wallet) (x : acct) : wallet * res :=
     if negb (check_sig_scheme (a_alg x) (a_sch x)) then (w, ESigScheme)
     else if negb (String.eqb (a_label x) "") && mmem (a_label x) (w_labels w) then (w, EDupLabel)
+    else if addaccount_refuses_held_address && mmem (a_addr x) (w_addrs w) then (w, EDupAddr)
     else
       let x' := if Nat.eqb (List.length (w_list w)) 0 then with_default x true else x in
       let id := List.length (w_heap w) in
@@ -266,7 +267,8 @@ Section Wallet.
          end.
 
   Definition change_password (w : wallet) (addr old new : string) : wallet * res :=
-    if String.eqb old new then (w, ROk)
+    if changepassword_refuses_empty && String.eqb new "" then (w, EEmptyPwd)
+    else if String.eqb old new then (w, ROk)
     else match mget addr (w_addrs w) with
          | None => (w, ENotFound)
          | Some id =>
@@ -364,52 +366,21 @@ Section Wallet.
       (w'', g'', e :: es)
     end.
 
-  (** *** the callers' obligations and the finding classes.
+  (** *** the caller's obligation.
       [op_caller_ok w o]: what the property takes for granted about the caller of operation [o]
-      issued in state [w]:
-        - the key generator returns a key the wallet does not hold yet;
-        - an imported key was encrypted with the parameters this wallet opens keys with and with
-          a non-empty password (AccountMetadata cannot carry parameters; DecryptWithCustomScrypt
-          refuses the empty password).
-      [in_finding_class w o]: [o] issued in state [w] is one of the three defects of the current
-      code (each is refuted below in Props/C38.v and listed in known_findings.d/C38.json):
-        - newaccount:wallet-scrypt-ignored  NewAccount on a wallet whose parameters differ from
-          the ones NewAccount encrypts with;
-        - import:duplicate-address          ImportAccount of an address the wallet already holds;
-        - chpwd:empty-new-password          ChangePassword from a non-empty to the empty password (the last
-          disjunct, ChangePassword and getAccount disagreeing on the parameters, is false on the
-          current code; it keeps the theorem meaningful if Gen/WalletConsts.v changes). *)
+      issued in state [w]: an imported key was encrypted with the parameters this wallet opens
+      keys with and with a non-empty password (AccountMetadata cannot carry parameters;
+      DecryptWithCustomScrypt refuses the empty password). Nothing is assumed about the other
+      operations (a generated key that collides with a held address is refused by the code). *)
   Definition op_caller_ok (w : wallet) (o : op) : Prop :=
     match o with
-    | ONew _ _ _ ki => get_meta_by_address w (ki_addr ki) = None
     | OImport _ _ _ _ _ _ _ _ prm pwd _ => prm = open_params w /\ pwd <> ""
     | _ => True
     end.
-  Definition in_finding_class (w : wallet) (o : op) : bool :=
-    match o with
-    | ONew _ _ _ _ => negb (scrypt_eqb (newacct_params w) (open_params w))
-    | OImport _ addr _ _ _ _ _ _ _ _ _ => match get_meta_by_address w addr with Some _ => true | None => false end
-    | OChangePwd _ old new =>
-        (String.eqb new "" && negb (String.eqb old "")) || negb (scrypt_eqb (chpwd_params w) (open_params w))
-    | _ => false
-    end.
-  Definition op_clean (w : wallet) (o : op) : Prop := op_caller_ok w o /\ in_finding_class w o = false.
-
   Fixpoint caller_ok (w : wallet) (ops : list op) : Prop :=
     match ops with
     | [] => True
     | o :: r => op_caller_ok w o /\ caller_ok (fst (step w o)) r
-    end.
-  Fixpoint clean (w : wallet) (ops : list op) : Prop :=
-    match ops with
-    | [] => True
-    | o :: r => op_clean w o /\ clean (fst (step w o)) r
-    end.
-  (** boolean form, for the correspondence: does the history contain an operation of a finding class? *)
-  Fixpoint history_in_finding_class (w : wallet) (ops : list op) : bool :=
-    match ops with
-    | [] => false
-    | o :: r => in_finding_class w o || history_in_finding_class (fst (step w o)) r
     end.
 
   (** *** what a client can see *)
@@ -447,6 +418,7 @@ Arguments RNil {key}.
 Arguments EEmptyPwd {key}.
 Arguments ESigScheme {key}.
 Arguments EDupLabel {key}.
+Arguments EDupAddr {key}.
 Arguments ENotFound {key}.
 Arguments EDeleteDefault {key}.
 Arguments EDecrypt {key}.
